@@ -68,10 +68,10 @@ type c15Msg struct {
 }
 
 func (m *c15Msg) TransportSenderID() net.TransportIdentifier { return nil }
-func (m *c15Msg) SenderPublicKey() []byte                     { return []byte{2} }
-func (m *c15Msg) Payload() interface{}                        { return &c15Payload{m.id} }
-func (m *c15Msg) Type() string                                { return m.typ }
-func (m *c15Msg) Seqno() uint64                               { return m.seq }
+func (m *c15Msg) SenderPublicKey() []byte                    { return []byte{2} }
+func (m *c15Msg) Payload() interface{}                       { return &c15Payload{m.id} }
+func (m *c15Msg) Type() string                               { return m.typ }
+func (m *c15Msg) Seqno() uint64                              { return m.seq }
 
 func c15Type(state int) string { return fmt.Sprintf("c15/state-%d", state) }
 
@@ -89,7 +89,8 @@ type c15Delivery struct {
 
 type c15Plan struct {
 	states int
-	need   []int           // messages of its own type a state needs to move on
+	need   []int           // messages of its own type sent to the state
+	slow   []bool          // the state's initiation lasts longer than the transition check interval
 	phases [][]c15Delivery // deliveries while state p is current, in order
 	// ending: "final" | "init-error" | "next-error" | "cancel-during-init" | "cancel-before-allow"
 	ending   string
@@ -98,7 +99,7 @@ type c15Plan struct {
 
 func (p *c15Plan) String() string {
 	var b strings.Builder
-	fmt.Fprintf(&b, "states=%d need=%v end=%s@%d", p.states, p.need, p.ending, p.endState)
+	fmt.Fprintf(&b, "states=%d need=%v slow=%v end=%s@%d", p.states, p.need, c15Bits(p.slow), p.ending, p.endState)
 	for ph, ds := range p.phases {
 		if len(ds) == 0 {
 			continue
@@ -118,15 +119,29 @@ func (p *c15Plan) String() string {
 	return b.String()
 }
 
+func c15Bits(l []bool) string {
+	var b strings.Builder
+	for _, v := range l {
+		if v {
+			b.WriteByte('1')
+		} else {
+			b.WriteByte('0')
+		}
+	}
+	return b.String()
+}
+
 func c15GenPlan(t *rapid.T, label string) *c15Plan {
 	p := &c15Plan{states: rapid.IntRange(2, 5).Draw(t, label+"states")}
 	p.need = make([]int, p.states)
+	p.slow = make([]bool, p.states)
 	p.phases = make([][]c15Delivery, p.states)
 	id := 1
 	type first struct{ forState, id, phase int }
 	var firsts []first
 	for s := 0; s < p.states; s++ {
 		p.need[s] = rapid.IntRange(0, 3).Draw(t, label+"need")
+		p.slow[s] = rapid.IntRange(0, 3).Draw(t, label+"slowInitiation") == 0
 		for k := 0; k < p.need[s]; k++ {
 			// the sender may be far ahead: the message can arrive while any
 			// earlier state (or the state itself) is current
@@ -247,21 +262,19 @@ func (s *c15State) Initiate(ctx context.Context) error {
 	return nil
 }
 
+// CanTransition answers true once the harness allows it. What the state can
+// see of its own messages at that moment is recorded and compared with what
+// was admitted (a state that could not see them would be stuck in a real
+// protocol; here that shows up as a wrong snapshot, not as a stall).
 func (s *c15State) CanTransition() bool {
 	c := s.c
 	ok := false
 	if c.allow[s.idx].Load() {
+		ok = true
 		vis := c.visible(s.idx)
-		distinct := map[int]bool{}
-		for _, id := range vis {
-			distinct[id] = true
-		}
-		if len(distinct) >= c.plan.need[s.idx] {
-			ok = true
-			c.mu.Lock()
-			c.visibleAtTrue[s.idx] = vis
-			c.mu.Unlock()
-		}
+		c.mu.Lock()
+		c.visibleAtTrue[s.idx] = vis
+		c.mu.Unlock()
 	}
 	c.event(c15Event{kind: "can", state: s.idx, ok: ok})
 	return ok
@@ -361,13 +374,22 @@ func c15Run(plan *c15Plan) (*c15Chain, *c15Outcome) {
 		out.beforeInit = append(out.beforeInit, before)
 		return waitFor(fmt.Sprintf("Receive of m%d", d.id), c.acks)
 	}
-	awaitEnd := func() {
+	// awaitEnd waits for Execute to return; `after` is the state at which the
+	// run must end: the machine initiating the following state instead is a
+	// violation (seen at once, no timeout involved).
+	awaitEnd := func(after int) {
 		if finished {
 			return
+		}
+		var nextStarted <-chan struct{}
+		if after+1 < n {
+			nextStarted = c.initStarted[after+1]
 		}
 		select {
 		case r := <-done:
 			out.final, out.err, finished = r.final, r.err, true
+		case <-nextStarted:
+			out.violation = fmt.Sprintf("state %d was initiated although the run had to end at state %d (%s)", after+1, after, plan.ending)
 		case <-time.After(c15Wait):
 			out.inconclusive = "timeout waiting for Execute to return"
 		}
@@ -389,8 +411,13 @@ func c15Run(plan *c15Plan) (*c15Chain, *c15Outcome) {
 		}
 		if plan.ending == "cancel-during-init" && plan.endState == p {
 			cancel()
-			awaitEnd()
+			awaitEnd(p)
 			break
+		}
+		if plan.slow[p] {
+			// the initiation outlasts a couple of transition checks (a
+			// schedule, not a verdict: nothing may happen meanwhile)
+			time.Sleep(transitionCheckInterval * 5 / 2)
 		}
 		close(c.gate[p])
 		gateOpen[p] = true
@@ -398,7 +425,7 @@ func c15Run(plan *c15Plan) (*c15Chain, *c15Outcome) {
 			break
 		}
 		if plan.ending == "init-error" && plan.endState == p {
-			awaitEnd()
+			awaitEnd(p)
 			break
 		}
 		for _, d := range plan.phases[p] {
@@ -413,17 +440,17 @@ func c15Run(plan *c15Plan) (*c15Chain, *c15Outcome) {
 		}
 		if plan.ending == "cancel-before-allow" && plan.endState == p {
 			cancel()
-			awaitEnd()
+			awaitEnd(p)
 			break
 		}
 		c.allow[p].Store(true)
 		if (plan.ending == "next-error" && plan.endState == p) || p == n-1 {
-			awaitEnd()
+			awaitEnd(p)
 			break
 		}
 	}
 	if !finished && out.inconclusive == "" && out.violation == "" {
-		awaitEnd()
+		awaitEnd(n - 1)
 	}
 	return c, out
 }
@@ -619,7 +646,13 @@ func TestVerif_C15_Interleavings(t *testing.T) {
 					}
 				}
 			}
-			st.Case(early, plan.String(), "ending:"+plan.ending, fmt.Sprintf("early-message:%v", early), fmt.Sprintf("duplicates:%v", dups), fmt.Sprintf("states:%d", plan.states))
+			slowInit := false
+			for s, v := range plan.slow {
+				if v && s <= plan.endState {
+					slowInit = true
+				}
+			}
+			st.Case(early, plan.String(), "ending:"+plan.ending, fmt.Sprintf("early-message:%v", early), fmt.Sprintf("duplicates:%v", dups), fmt.Sprintf("states:%d", plan.states), fmt.Sprintf("slow-initiation:%v", slowInit))
 		}
 	})
 }
